@@ -164,7 +164,10 @@ def matrices():
     rotated[:3, 3] = [0.5, -0.25, 0.125]
     persp = np.eye(4)
     persp[3, 2] = 0.15
-    return dict(ortho=ortho.tolist(), rotated=rotated.tolist(), persp=(persp @ rotated).tolist())
+    # the same parallel projection written with another homogeneous scale: last row (0, 0, 0, w) with w != 1
+    # (screen coordinates are x/w, y/w), including a negative one
+    return dict(ortho=ortho.tolist(), rotated=rotated.tolist(), persp=(persp @ rotated).tolist(),
+                ortho_w2=(2.0 * ortho).tolist(), rotated_wneg=(-0.5 * rotated).tolist())
 
 
 def proj_inner(tier):
